@@ -13,7 +13,7 @@ import tempfile
 
 VERIF = os.path.dirname(os.path.dirname(os.path.abspath(__file__)))
 # seeds that are recorded misses on purpose (vendored third-party code, outside the analysed scope; DESIGN.md section 8)
-EXPECTED_MISS = {'C20_3', 'C20c_3'}
+EXPECTED_MISS = {'C20_3', 'C20c_3', 'C20d_2'}
 
 
 def run_seed(name):
